@@ -117,6 +117,8 @@ type Exec struct {
 	guard                *Term
 	spec                 int
 	rawInit              bool
+	unlockedReads        map[interface{}]bool
+	writtenTagged        map[interface{}]bool
 	lineScanners         map[*Loc]*lineScanner
 	rngCache             map[int]rng
 	varRng               map[int]rng
@@ -549,6 +551,9 @@ func (ex *Exec) load(l *Loc) Value {
 		ex.end("panic", "%s:nil-deref: nil pointer dereference", ex.siteName())
 	}
 	if !l.agg {
+		if l.tag != 0 && !ex.initing && len(ex.locks) == 0 {
+			ex.unlockedReads[l] = true
+		}
 		return l.v
 	}
 	if _, ok := l.typ.Underlying().(*types.Struct); ok {
@@ -579,6 +584,8 @@ func (ex *Exec) store(l *Loc, v Value) {
 	}
 	if l.tag != 0 && !ex.initing {
 		ex.w.globalWrite(ex, l)
+		ex.writtenTagged[l] = true
+		ex.tagValue(v, map[interface{}]bool{})
 	}
 	if !l.agg {
 		if ex.guard != nil && l.born <= ex.specMarkID {
@@ -682,6 +689,10 @@ func (ex *Exec) mapSet(m *MapObj, key string, e *mapEntry) {
 	}
 	if m.tag != 0 && !ex.initing {
 		ex.w.globalWriteMap(ex, m)
+		ex.writtenTagged[m] = true
+		if e != nil {
+			ex.tagValue(e.val, map[interface{}]bool{})
+		}
 	}
 	old := m.m[key]
 	ex.trail = append(ex.trail, undo{isM: true, m: m, key: key, oldE: old})
